@@ -20,7 +20,7 @@ RULE = ('two glob stores with cells (timed ledger process whose timestep 0.5/0.7
         'published composite is rebuilt into a second engine and both continue for 3 s; non-trivial = >=2 '
         'operations applied, >=1 with a cell update in flight or a second-generation division, >=20 logged '
         'invocations; distinct = distinct case spec')
-PLAN = {'quick': {'n': 2000, 'min_cases': 400}, 'thorough': {'n': 60000, 'min_cases': 6000}}
+PLAN = {'quick': {'n': 6000, 'min_cases': 400}, 'thorough': {'n': 60000, 'min_cases': 6000}}
 REQUIRED_ORACLES = ['no_exception', 'derivers_first_in_order', 'no_invocation_after_death', 'starts_at_creation', 'schedule_contiguous',
                     'steps_once_per_phase', 'derived_values', 'published_matches_hierarchy', 'composite_written_back',
                     'rebuilt_engine_continues']
